@@ -179,6 +179,32 @@ def structural_faults(rnd, gt, sp):
         "data"].__setitem__("uuid", [
             b for b in blocks({"modules": d["modules"][:1]})
             if "code" in b][0]["code"]["uuid"]))
+    # any two nodes of the file sharing one UUID (all kinds, incl. a node
+    # and its own parent / child), sampled
+    def all_nodes(d):
+        out = [("ir", d)]
+        for m in d["modules"]:
+            out.append(("module", m))
+            out += [("proxy", p) for p in m["proxies"]]
+            out += [("symbol", y) for y in m["symbols"]]
+            for s_ in m["sections"]:
+                out.append(("section", s_))
+                for bi in s_["byte_intervals"]:
+                    out.append(("interval", bi))
+                    for b in bi["blocks"]:
+                        out.append(("code" if "code" in b else "data",
+                                    inner(b)))
+        return out
+    n0 = all_nodes(d0)
+    if len(n0) >= 2:
+        for _ in range(8):
+            i, j = rnd.sample(range(len(n0)), 2)
+
+            def ed(d, i=i, j=j):
+                ns = all_nodes(d)
+                ns[j][1]["uuid"] = ns[i][1]["uuid"]
+            out.append(("dup-uuid:pair:%s=%s%s" % (
+                n0[j][0], n0[i][0], ":later" if j > i else ":earlier"), ed))
     # unknown enum numbers
     add("enum:isa", mods, lambda d: d["modules"][0].__setitem__("isa", 77))
     add("enum:file_format", mods, lambda d: d["modules"][0].__setitem__(
